@@ -12,6 +12,12 @@ R3 least-squares form for alpha='auto': S == reduce(x*q; A) /
    denominator, keepdims, q the code node of R1.
 R4 alpha='auto_po2': the value set of S is a positive power-of-two set,
    inside the configured exponent bounds when given.
+The stochastic classes are decided in both arms of their learning-phase
+conditional (attributes the two arms store differently are phase-dependent
+values in the evaluator).  In the training arm the emitted code is a random
+draw: R5 / R1 / R4 as above; R3 asks that the scale is the least-squares
+form for the emitted code or for a deterministic, sign-correct code with the
+same value set (the repository fits it to the deterministic code).
 """
 from fractions import Fraction as F
 import itertools
@@ -61,9 +67,16 @@ def scale_nf(b, fw):
   return NF.const(F(s))
 
 
-def check_least_squares(rep, unit, cfg, loc, s_nf, q_nf, x_nf):
+def check_least_squares(rep, unit, cfg, loc, s_nf, q_nf, x_nf, codes=None,
+                        is_bin=False, hi_lo=(1, -1), emitted=None):
+  """q_nf None (training arm of the stochastic quantizers, whose emitted
+  code is random): the scale has to be the least-squares form for SOME
+  deterministic code c, read off the numerator reduce(x*c): c's value set is
+  inside `codes`, c is sign-correct by region of x, and the denominator
+  reduces c^2."""
   sm = s_nf.single_monomial()
   why = None
+  derive = q_nf is None
   if sm is None or sm[1] != 1:
     why = "scale is not a single quotient: %s" % show(s_nf, 200)
   else:
@@ -90,6 +103,44 @@ def check_least_squares(rep, unit, cfg, loc, s_nf, q_nf, x_nf):
         why = "reduction does not keep dims (scale would not broadcast)"
       elif not (eps > 0):
         why = "no positive epsilon in the denominator"
+      elif derive:
+        c = n_at[3][0] * x_nf.inverse()
+        def on(lo, hi, xs=None):
+          return Eval(Env(x=VS.real(lo, hi) if lo != hi else VS.const(lo),
+                          xsign=xs)).nf(c)
+        if any(a == ("x",) and e < 0 for m in c.terms for a, e in m):
+          why = "numerator reduces %s, which is not x*code" % show(
+              n_at[3][0], 120)
+        elif emitted is not None and c == emitted:
+          # fitted to the very code that is emitted
+          if d_at[3][0] != c * c:
+            why = "denominator reduces %s, expected code^2 = %s" % (
+                show(d_at[3][0], 120), show(c * c, 120))
+        elif any(a[0] == "app" and a[1] == "rand" for a in c.atoms()):
+          why = "the code %s the scale is fitted to is random and not the " \
+              "emitted code" % show(c, 120)
+        elif not value_set(c).subset_of(codes):
+          why = "the code %s the scale is fitted to has values %r, not " \
+              "inside %r" % (show(c, 120), value_set(c), codes)
+        elif d_at[3][0] != c * c:
+          why = "denominator reduces %s, expected code^2 = %s" % (
+              show(d_at[3][0], 120), show(c * c, 120))
+        elif n_at[1] not in ("reduce_mean", "reduce_sum"):
+          why = "reduction %s is neither a mean nor a sum" % n_at[1]
+        else:
+          pos, neg, zero = on(F(0), None, 1), on(None, F(0), -1), \
+              on(F(0), F(0), 0)
+          if is_bin:
+            if not (pos.const_value() == hi_lo[0] and
+                    neg.const_value() == hi_lo[1] and
+                    zero.const_value() == hi_lo[0]):
+              why = "the code the scale is fitted to is %r for x>0, %r " \
+                  "for x<0, %r for x=0 (expected %s / %s / %s)" % (
+                      pos, neg, zero, hi_lo[0], hi_lo[1], hi_lo[0])
+          elif not (pos.subset_of(VS.fin([0, 1])) and
+                    neg.subset_of(VS.fin([-1, 0]))):
+            why = "the code the scale is fitted to is %r for x>0, %r for " \
+                "x<0" % (pos, neg)
       elif n_at[3][0] != x_nf * q_nf:
         why = "numerator reduces %s, expected x*code = %s" % (
             show(n_at[3][0], 120), show(x_nf * q_nf, 120))
@@ -441,102 +492,113 @@ def run(rep, repo, tier):
       b = quant.build(repo, cls, kw)
     except ConfigRejected:
       continue
-    fw = Fwd("infer")
-    f = fw(b.term)
-    if any(a[0] == "sym" and str(a[1]).startswith("RAISES")
-           for a in f.atoms()):
-      continue
-    n += 1
-    rep.unit(unit)
-    loc = b.pe.loc_of(b.term)
-    s_nf = scale_nf(b, fw)
-    facts = {"config": cfg, "forward": show(f, 400),
-             "scale": show(s_nf, 300) if s_nf is not None else None}
-    if s_nf is None or s_nf.is_zero():
-      rep.fail("R5", unit, "no-scale-recorded",
-               "self.scale is not set by the call", loc=loc, instance=cfg,
-               facts=facts)
-      continue
-    if s_nf.single_monomial() is None:
-      rep.fail("R5", unit, "scale-not-a-factor",
-               "the recorded scale %s is not a single factor" %
-               show(s_nf, 200), loc=loc, instance=cfg, facts=facts)
-      continue
-    q = f * s_nf.inverse()
-    s_atoms = {a for a in s_nf.atoms(deep=False)}
-    leftover = [a for a in q.atoms(deep=False) if a in s_atoms]
-    rep.check(not leftover, "R5", unit, "output!=scale*code",
-              "output / recorded scale still contains scale factors: %s" %
-              show(q, 200), loc=loc, instance=cfg, facts=facts)
-    is_bin = "binary" in cls
-    if is_bin:
-      codes = VS.fin([0, 1]) if kw.get("use_01") else VS.fin([-1, 1])
-    else:
-      codes = VS.fin([-1, 0, 1])
-    got = value_set(q)
-    rep.check(got.subset_of(codes), "R1", unit, "code-set",
-              "code value set %r is not inside %r (code = %s)" %
-              (got, codes, show(q, 200)), loc=loc, instance=cfg, facts=facts)
-    if n % 5 == 1:
-      rep.sample({"config": cfg, "code": show(q, 160),
-                  "code_values": repr(got), "scale": show(s_nf, 160)})
-    # R2 by region
-    def on(lo, hi, xs=None):
-      return Eval(Env(x=VS.real(lo, hi) if lo != hi else VS.const(lo),
-                      xsign=xs)).nf(q)
-    pos, neg, zero = on(F(0), None, 1), on(None, F(0), -1), on(F(0), F(0), 0)
-    if is_bin:
-      hi_code, lo_code = (1, 0) if kw.get("use_01") else (1, -1)
-      ok = pos.const_value() == hi_code and neg.const_value() == lo_code \
-          and zero.const_value() == hi_code
-      rep.check(ok, "R2", unit, "sign-orientation",
-                "code by region: x>0 -> %r, x<0 -> %r, x=0 -> %r; expected "
-                "%s / %s / %s" % (pos, neg, zero, hi_code, lo_code, hi_code),
-                loc=loc, instance=cfg, facts=facts)
-    else:
-      ok = pos.subset_of(VS.fin([0, 1])) and neg.subset_of(VS.fin([-1, 0]))
-      rep.check(ok, "R2", unit, "sign-orientation",
-                "ternary code by region: x>0 -> %r, x<0 -> %r" % (pos, neg),
-                loc=loc, instance=cfg, facts=facts)
-      if not isinstance(kw.get("alpha"), str):
-        # constant threshold (documented default 0.33)
-        t = F(kw["threshold"]) if kw.get("threshold") is not None else None
-        if t is None:
-          dt = b.obj.attrs.get("default_threshold")
-          t = F(dt) if dt is not None else None
-        if t is not None and t == 0:
-          # no dead band: every non-zero input keeps its sign
-          rep.check(pos.const_value() == 1 and neg.const_value() == -1,
-                    "R2", unit, "threshold-orientation",
-                    "with threshold 0: x>0 -> %r, x<0 -> %r (expected 1 / "
-                    "-1)" % (pos, neg), loc=loc, instance=cfg, facts=facts)
-        elif t is not None:
-          e = t / 1000
-          inner = on(-t + e, t - e)
-          up = on(t, None, 1)
-          dn = on(None, -t, -1)
-          rep.check(inner.const_value() == 0 and up.const_value() == 1 and
-                    dn.const_value() == -1, "R2", unit,
-                    "threshold-orientation",
-                    "with threshold %s: |x|<t -> %r, x>=t -> %r, x<=-t -> %r "
-                    "(expected 0 / 1 / -1)" % (t, inner, up, dn), loc=loc,
-                    instance=cfg, facts=facts)
-    # R3 / R4
-    alpha = kw.get("alpha")
-    if alpha == "auto":
-      x_nf = NF.x()
-      check_least_squares(rep, unit, cfg, loc, s_nf, q, x_nf)
-    if alpha == "auto_po2":
-      sv = value_set(s_nf)
-      ok = sv.kind == "po2" and sv.signs == frozenset([1])
-      mn, mx = kw.get("min_po2_exponent"), kw.get("max_po2_exponent")
-      if ok and (mn is not None or mx is not None):
-        ok = sv.exps.subset_of(VS.grid(1, 0, mn, mx))
-      rep.check(ok, "R4", unit, "scale-not-power-of-two",
-                "auto_po2 scale value set is %r (expected a positive power "
-                "of two%s)" % (sv, "" if mn is None and mx is None else
-                               " with exponent in [%s, %s]" % (mn, mx)),
-                loc=loc, instance=cfg, facts=facts)
+    cfg0 = cfg
+    for phase in (("infer", "train") if cls.startswith("stochastic")
+                  else ("infer",)):
+      train = phase == "train"
+      cfg = cfg0 + (" [training arm]" if train else "")
+      fw = Fwd(phase)
+      f = fw(b.term)
+      if any(a[0] == "sym" and str(a[1]).startswith("RAISES")
+             for a in f.atoms()):
+        continue
+      n += 1
+      rep.unit(unit)
+      loc = b.pe.loc_of(b.term)
+      s_nf = scale_nf(b, fw)
+      facts = {"config": cfg, "forward": show(f, 400),
+               "scale": show(s_nf, 300) if s_nf is not None else None}
+      if s_nf is None or s_nf.is_zero():
+        rep.fail("R5", unit, "no-scale-recorded",
+                 "self.scale is not set by the call", loc=loc, instance=cfg,
+                 facts=facts)
+        continue
+      if s_nf.single_monomial() is None:
+        rep.fail("R5", unit, "scale-not-a-factor",
+                 "the recorded scale %s is not a single factor" %
+                 show(s_nf, 200), loc=loc, instance=cfg, facts=facts)
+        continue
+      q = f * s_nf.inverse()
+      s_atoms = {a for a in s_nf.atoms(deep=False)}
+      leftover = [a for a in q.atoms(deep=False) if a in s_atoms]
+      rep.check(not leftover, "R5", unit, "output!=scale*code",
+                "output / recorded scale still contains scale factors: %s" %
+                show(q, 200), loc=loc, instance=cfg, facts=facts)
+      is_bin = "binary" in cls
+      if is_bin:
+        codes = VS.fin([0, 1]) if kw.get("use_01") else VS.fin([-1, 1])
+      else:
+        codes = VS.fin([-1, 0, 1])
+      got = value_set(q)
+      rep.check(got.subset_of(codes), "R1", unit, "code-set",
+                "code value set %r is not inside %r (code = %s)" %
+                (got, codes, show(q, 200)), loc=loc, instance=cfg, facts=facts)
+      if n % 5 == 1:
+        rep.sample({"config": cfg, "code": show(q, 160),
+                    "code_values": repr(got), "scale": show(s_nf, 160)})
+      # R2 by region
+      def on(lo, hi, xs=None):
+        return Eval(Env(x=VS.real(lo, hi) if lo != hi else VS.const(lo),
+                        xsign=xs)).nf(q)
+      pos, neg, zero = on(F(0), None, 1), on(None, F(0), -1), on(F(0), F(0), 0)
+      if train:
+        pass    # the emitted code is a random draw; its sign is not decided
+      elif is_bin:
+        hi_code, lo_code = (1, 0) if kw.get("use_01") else (1, -1)
+        ok = pos.const_value() == hi_code and neg.const_value() == lo_code \
+            and zero.const_value() == hi_code
+        rep.check(ok, "R2", unit, "sign-orientation",
+                  "code by region: x>0 -> %r, x<0 -> %r, x=0 -> %r; expected "
+                  "%s / %s / %s" % (pos, neg, zero, hi_code, lo_code, hi_code),
+                  loc=loc, instance=cfg, facts=facts)
+      else:
+        ok = pos.subset_of(VS.fin([0, 1])) and neg.subset_of(VS.fin([-1, 0]))
+        rep.check(ok, "R2", unit, "sign-orientation",
+                  "ternary code by region: x>0 -> %r, x<0 -> %r" % (pos, neg),
+                  loc=loc, instance=cfg, facts=facts)
+        if not isinstance(kw.get("alpha"), str):
+          # constant threshold (documented default 0.33)
+          t = F(kw["threshold"]) if kw.get("threshold") is not None else None
+          if t is None:
+            dt = b.obj.attrs.get("default_threshold")
+            t = F(dt) if dt is not None else None
+          if t is not None and t == 0:
+            # no dead band: every non-zero input keeps its sign
+            rep.check(pos.const_value() == 1 and neg.const_value() == -1,
+                      "R2", unit, "threshold-orientation",
+                      "with threshold 0: x>0 -> %r, x<0 -> %r (expected 1 / "
+                      "-1)" % (pos, neg), loc=loc, instance=cfg, facts=facts)
+          elif t is not None:
+            e = t / 1000
+            inner = on(-t + e, t - e)
+            up = on(t, None, 1)
+            dn = on(None, -t, -1)
+            rep.check(inner.const_value() == 0 and up.const_value() == 1 and
+                      dn.const_value() == -1, "R2", unit,
+                      "threshold-orientation",
+                      "with threshold %s: |x|<t -> %r, x>=t -> %r, x<=-t -> %r "
+                      "(expected 0 / 1 / -1)" % (t, inner, up, dn), loc=loc,
+                      instance=cfg, facts=facts)
+      # R3 / R4
+      alpha = kw.get("alpha")
+      if alpha == "auto":
+        x_nf = NF.x()
+        if train:
+          check_least_squares(rep, unit, cfg, loc, s_nf, None, x_nf,
+                              codes=codes, is_bin=is_bin, emitted=q)
+        else:
+          check_least_squares(rep, unit, cfg, loc, s_nf, q, x_nf)
+      if alpha == "auto_po2":
+        sv = value_set(s_nf)
+        ok = sv.kind == "po2" and sv.signs == frozenset([1])
+        mn, mx = kw.get("min_po2_exponent"), kw.get("max_po2_exponent")
+        if ok and (mn is not None or mx is not None):
+          ok = sv.exps.subset_of(VS.grid(1, 0, mn, mx))
+        rep.check(ok, "R4", unit, "scale-not-power-of-two",
+                  "auto_po2 scale value set is %r (expected a positive power "
+                  "of two%s)" % (sv, "" if mn is None and mx is None else
+                                 " with exponent in [%s, %s]" % (mn, mx)),
+                  loc=loc, instance=cfg, facts=facts)
   rep.extra["configuration_points"] = n
   rule_groups(rep, repo, [("binary", dict(alpha="auto")),
                           ("binary", dict(alpha="auto_po2", use_01=True)),
